@@ -451,17 +451,28 @@ func (g *gstate) mutate(rt *rapid.T) {
 	switch weighted(rt, "mutation", "rebuild", 8, "default", dw, "extra", 3, "password", 3) {
 	case "rebuild":
 		s := g.slots[unif(rt, len(g.slots), "slot")]
+		var fresh []*slot // addresses that have no primary file yet: adding one is the "add a file" action
+		for _, o := range g.slots {
+			if !g.isRegular("w/" + o.name()) {
+				fresh = append(fresh, o)
+			}
+		}
+		if len(fresh) > 0 && pct(rt, 55, "preferNewFile") {
+			s = fresh[unif(rt, len(fresh), "freshSlot")]
+		}
 		var kind string
+		noticed := 4
 		if g.isRegular("w/" + s.name()) {
 			kind = weighted(rt, "newKind", "correct", 5, "wrongkey", 4, "garbage", 2, "pbkdf2", 1)
 		} else {
-			kind = weighted(rt, "newKind", "correct", 6, "wrongkey", 3, "garbage", 1, "pbkdf2", 1, "nearmiss", 3, "subdir", 1)
+			kind = weighted(rt, "newKind", "correct", 7, "wrongkey", 4, "garbage", 1, "pbkdf2", 1, "nearmiss", 2, "subdir", 1)
+			noticed = 10
 		}
 		g.emit(g.slotFiles(rt, s, kind), true)
 		s.kind = kind
 		// follow up on the changed slot: through the listener (wait, then ask) or a refresh, or
 		// straight away (stale list / cached key)
-		switch weighted(rt, "followUp", "none", 4, "noticed", 4, "direct", 2) {
+		switch weighted(rt, "followUp", "none", 3, "noticed", noticed, "direct", 2) {
 		case "noticed":
 			if cfg.Listener && pct(rt, 70, "viaListener") {
 				g.c.Acts = append(g.c.Acts, Action{Op: "settle"})
